@@ -226,6 +226,17 @@ class EpochRules:
         ps = self.paths(f)
         general = 0
         ptr_loop = set()
+        shape = []       # obligations about the *shape* of the loop (ascending index / pointer): arbitrated by scan_cover() below
+
+        class _Shape:
+            @staticmethod
+            def emit(rule, status, key, loc, detail):
+                shape.append((rule, status, key, loc, detail))
+
+            @staticmethod
+            def unsup(rule, key, loc, detail):
+                shape.append((rule, 'unsupported', key, loc, detail))
+        shp = _Shape
         for p in ps:
             ems = [e for e in p.events if e['kind'] == 'call' and e.get('obj') == lst and e.get('name') in ('emplace_back', 'push_back')]
             other = [e for e in p.events if e['kind'] == 'call' and e.get('obj') == lst and not e.get('const_method') and
@@ -258,17 +269,17 @@ class EpochRules:
                     slot[1][1] == ('field', S('this'), self.slots)
                 ptr_form = x['obj'][0] == 'field' and x['obj'][2] == self.hbf and (slot == BASE or (isinstance(slot, tuple) and slot[0] == 's' and '~' in slot[1]))
                 if not (idx_form or ptr_form):
-                    sink.unsup('C04.SCAN', 'expired() receiver', self.loc(f, x['line']), show(x['obj']))
+                    shp.unsup('C04.SCAN', 'expired() receiver', self.loc(f, x['line']), show(x['obj']))
                     continue
                 if idx_form and not is_const(idx):
                     general += 1
                     inb = any(c[0] == 'op' and c[1] == '<' and c[2] == idx and is_const(c[3]) and c[3][1] == self.slots_extent and o for c, o, _ in p.conds if isinstance(c, tuple))
-                    sink.emit('C04.SCAN', 'ok' if inb else 'violated', 'scan index bounded by the number of slots', self.loc(f, x['line']),
+                    shp.emit('C04.SCAN', 'ok' if inb else 'violated', 'scan index bounded by the number of slots', self.loc(f, x['line']),
                               'loop condition i < %d' % self.slots_extent)
                 elif ptr_form and slot != BASE:
                     general += 1
                     inb = any(isinstance(c, tuple) and c[0] == 'op' and c[1] == '!=' and c[2] == slot and c[3] == END and o for c, o, _ in p.conds)
-                    sink.emit('C04.SCAN', 'ok' if inb else 'violated', 'scan pointer bounded by the end of the slot array', self.loc(f, x['line']),
+                    shp.emit('C04.SCAN', 'ok' if inb else 'violated', 'scan pointer bounded by the end of the slot array', self.loc(f, x['line']),
                               'loop condition p != slots + %d' % self.slots_extent)
                     ptr_loop.add(slot[1].split('~')[0])
                 if exp_t is True:
@@ -329,10 +340,22 @@ class EpochRules:
                 desc = any('greater' in repr(a) for a in srt['args']) or len(rb) >= 2
                 last_app = max([e['seq'] for e in ems] or [0])
                 good = desc and srt['seq'] > last_app
+                # the range sorted is the whole list as it is after the last append
+                whole = True
+                for a, names_ok in ((srt['args'][0] if srt['args'] else None, ('begin', 'rbegin', 'cbegin', 'crbegin')),
+                                    (srt['args'][1] if len(srt['args']) > 1 else None, ('end', 'rend', 'cend', 'crend'))):
+                    src = [e for e in p.events if e['kind'] == 'call' and e.get('obj') == lst and e.get('result') is not None and
+                           (a == e['result'] or show(a) == show(e['result']) or show(a) == show(('deref', e['result'])))]
+                    if not src or src[-1].get('name') not in names_ok or src[-1]['seq'] < last_app:
+                        whole = False
+                if not whole:
+                    good = False
             except ValueError:
                 good, desc = False, False
             sink.emit('C16.SORT', 'ok' if good else 'violated', 'the list is sorted descending, de-duplicated and trimmed after the scan', self.loc(f),
-                      'std::sort(greater) -> std::unique -> erase on every path' if good else 'sequence %s' % [n for n in names if n in ('std::sort', 'std::unique', 'erase')])
+                      'std::sort(greater) over the whole list -> std::unique -> erase on every path' if good else
+                      'sequence %s%s' % ([n for n in names if n in ('std::sort', 'std::unique', 'erase')], '' if desc and 'whole' in dir() and whole else
+                                         ' (the sorted range is not [begin, end) of the list as it is after the last append, or the order is not descending)'))
         # the scan loop is left only through its own bound: every complete path has (i < N) == false
         loopvars = set()
         for p in ps:
@@ -356,17 +379,86 @@ class EpochRules:
                 any(isinstance(c, tuple) and c[0] == 'op' and c[1] == '<' and is_index(c[2]) and is_const(c[3]) and c[3][1] == self.slots_extent and not o for c, o, _ in p.conds) or \
                 any(isinstance(c, tuple) and c[0] == 'op' and c[1] in ('>=', '==') and is_index(c[2]) and is_const(c[3]) and c[3][1] == self.slots_extent and o for c, o, _ in p.conds)
             hard = [e for e in p.events if e['kind'] == 'cond' and e['value'] == C(0, 1)]
-            sink.emit('C04.SCAN', 'ok' if done else 'violated', 'the scan leaves its loop only when every slot index was visited', self.loc(f, p.ret_line),
+            shp.emit('C04.SCAN', 'ok' if done else 'violated', 'the scan leaves its loop only when every slot index was visited', self.loc(f, p.ret_line),
                       'exit through i < %d == false' % self.slots_extent if done else 'a path reaches the end of the function without the loop bound having failed (early break / return): slots are skipped')
         if not general:
-            sink.unsup('C04.SCAN', 'general iteration', self.loc(f), 'no path through a general loop iteration')
+            shp.unsup('C04.SCAN', 'general iteration', self.loc(f), 'no path through a general loop iteration')
         # loop variable: starts at 0, +1 per iteration
         upd = set()
         for p in ps:
             for e in p.events:
                 if e['kind'] == 'assign_local' and e['path'][0] == 'var' and (e['path'][2] in loopvars or e['path'][2] in ptr_loop or not (loopvars or ptr_loop)):
                     upd.add('+1' if e.get('how') == '++' else norm(e['value']))
-        sink.emit('C04.SCAN', 'ok' if upd == {'+1'} else 'violated', 'scan visits every slot index once (i = 0; i < N; ++i)', self.loc(f), 'index updates: %s' % sorted(upd))
+        shp.emit('C04.SCAN', 'ok' if upd == {'+1'} else 'violated', 'scan visits every slot index once (i = 0; i < N; ++i)', self.loc(f), 'index updates: %s' % sorted(upd))
+        # arbitration: the loop may have any shape as long as every slot is examined exactly once; that is decided exactly
+        # for a small capacity by following the loop concretely (scan_cover); the shape obligations are reported when the
+        # coverage is refuted or cannot be decided
+        cover, cdetail = self.scan_cover()
+        shape_ok = all(st == 'ok' for _, st, _, _, _ in shape)
+        if cover is True:
+            sink.ok('C04.SCAN', 'every slot is examined exactly once (capacity 3, loop followed concretely)', self.loc(f), cdetail)
+            for rule, st, key, loc, detail in shape:
+                if st == 'ok':
+                    sink.emit(rule, st, key, loc, detail)
+        else:
+            if cover is False:
+                sink.bad('C04.SCAN', 'every slot is examined exactly once (capacity 3, loop followed concretely)', self.loc(f), cdetail)
+            elif not shape_ok:
+                sink.unsup('C04.SCAN', 'every slot is examined exactly once (capacity 3, loop followed concretely)', self.loc(f), cdetail)
+            for rule, st, key, loc, detail in shape:
+                sink.emit(rule, st, key, loc, detail)
+
+    def scan_cover(self):
+        """(True / False / None, detail): on facts extracted with three slots, every complete path of CollectProtectedEpochs -
+        with the loop followed iteration by iteration, no widening - calls expired() on each of the slots 0, 1, 2 exactly once"""
+        import facts as F2
+        from pathsim import Engine as Eng2
+        cache = self.fx.__dict__.setdefault('_scan_cover', {})
+        if 'r' in cache:
+            return cache['r']
+        try:
+            fx3 = F2.extract(['epoch_manager.cpp', 'epoch.cpp', 'epoch_guard.cpp', 'id_manager.cpp'], cmake_defs=['DBGROUP_MAX_THREAD_NUM=3'], repo=F2.REPO)
+            eng3 = Eng2(fx3, max_paths=20000, max_header_visits=8, unroll=True)
+            f3 = fx3.fn(NS + 'EpochManager::CollectProtectedEpochs')
+            res = eng3.paths(f3)
+        except AnalysisBroken as ex:
+            cache['r'] = (None, 'not decidable: %s' % str(ex)[:120])
+            return cache['r']
+        BASE = S('this->' + self.slots)
+        n_paths, bad = 0, None
+
+        def slot_index(obj):
+            if not (isinstance(obj, tuple) and obj and obj[0] == 'field' and obj[2] == self.hbf):
+                return None
+            a = obj[1]
+            if a == BASE:
+                return 0
+            if isinstance(a, tuple) and a and a[0] == 'addr' and a[1][0] == 'index' and a[1][1] == ('field', S('this'), self.slots) and is_const(a[1][2]):
+                return a[1][2][1]
+            if isinstance(a, tuple) and a and a[0] == 'op' and a[1] == '+' and a[2] == BASE and is_const(a[3]):
+                return a[3][1]
+            return None
+        for p in res['paths']:
+            if p.end != 'return':
+                continue
+            n_paths += 1
+            seen = []
+            for e in p.events:
+                if e['kind'] == 'call' and e.get('name') == 'expired':
+                    i = slot_index(e['obj'])
+                    if i is None:
+                        cache['r'] = (None, 'not decidable: expired() on %s' % show(e['obj'])[:80])
+                        return cache['r']
+                    seen.append(i)
+            if sorted(seen) != [0, 1, 2] and bad is None:
+                bad = 'a complete path examines the slots %s instead of each of 0, 1, 2 once' % seen
+        if not n_paths:
+            cache['r'] = (None, 'not decidable: no complete path with the loop followed concretely (%d cut)' % res['cuts'])
+        elif bad:
+            cache['r'] = (False, bad)
+        else:
+            cache['r'] = (True, '%d complete paths, each examines slots 0, 1, 2 once' % n_paths)
+        return cache['r']
 
     def is_max(self, v):
         return (is_const(v) and v[1] == MAXV) or 'numeric_limits' in show(v) and 'max' in show(v)
@@ -621,6 +713,27 @@ class EpochRules:
                     sink.emit('C20.UAF', 'ok' if not later else 'violated', 'no access to a node after it was deleted', self.loc(f, e['line']),
                               '' if not later else 'access at line %s' % later[0].get('line'))
         self.walk_invariant(rm)
+        # the walk compares every node with the protected epoch / node bits *current at that step*: a closure that copied one of
+        # these variables when it was created and is used after the variable moved on decides on a stale value
+        for fq in (rm, self.F['CollectProtectedEpochs'], self.F['ForwardGlobalEpoch']):
+            stale = None
+            for p in self.paths(fq):
+                for L in [e for e in p.events if e['kind'] == 'lambda_create']:
+                    for did, name in L['by_copy']:
+                        asg = [e for e in p.events if e['kind'] == 'assign_local' and e['path'][0] == 'var' and e['path'][1] == did and e['seq'] > L['seq']]
+                        if not asg:
+                            continue
+                        uses = [e for e in p.events if e['seq'] > asg[0]['seq'] and
+                                ((e['kind'] == 'inline_begin' and e.get('callee') == L['fn']) or
+                                 (e['kind'] == 'call' and any(a == ('lambda', L['fn']) for a in (e.get('args') or ()))))]
+                        if uses and stale is None:
+                            stale = (name, L, uses[0])
+            if stale:
+                sink.bad('C17.FREE', '%s uses a closure that copied `%s` before it changed' % (sname(fq['name']), stale[0]), self.loc(fq, stale[2].get('line')),
+                         'the closure created at line %s captured `%s` by copy; the variable is assigned afterwards and the closure is used again: nodes are '
+                         'compared with a stale value (a protected node can be unlinked and freed)' % (stale[1].get('line'), stale[0]))
+            else:
+                sink.ok('C17.FREE', '%s closures do not outlive the values they copied' % sname(fq['name']), self.loc(fq), '')
         # RemoveOutDatedLists does not modify the list it reads
         for p in self.paths(rm):
             for e in p.events:
